@@ -69,6 +69,20 @@ def _rec(i):
     return t
 
 
+class _K:
+    """plain Python object used by generated programs (attribute access / method calls on random objects)"""
+
+    def __init__(self, v):
+        self.v = v
+
+    def m(self, k):
+        return self.v * 2 + k
+
+    def __repr__(self):
+        return f"K({self.v})"
+
+
+_script.K = _K
 _script.rec = _rec
 _script.rej = _rej
 _script.a = _a
